@@ -177,6 +177,61 @@ class Prob:
         return PF, dF, Acl
 
 
+def rule_run(pb, G, T, x0):
+    """exact T-period run of the rule u = -G x from x0: (cost, [x_0..x_T])"""
+    b = pb.beta
+    x, cost, xs = x0, F(0), [x0]
+    for t in range(T):
+        u = scal(F(-1), mm(G, x))
+        st = mm(tr(x), mm(pb.R, x))[0][0] + mm(tr(u), mm(pb.Q, u))[0][0] + 2 * mm(tr(u), mm(pb.N, x))[0][0]
+        cost += b ** t * st
+        x = madd(mm(pb.A, x), mm(pb.B, u))
+        xs.append(x)
+    return cost, xs
+
+
+def check_identity_b(ctx, cases, pb, Pq, Fq, method):
+    """theorem `linear_rule_cost_identity` evaluated exactly on the code's (P, F) for a random rule G, horizon T, x0"""
+    rng = ctx.rng
+    n, k, b = pb.n, pb.k, pb.beta
+    for _ in range(ctx.n(2, 4)):
+        kind = rng.randrange(3)
+        if kind == 0:
+            G = madd(Fq, [[F(rng.randint(-2, 2), 8) for _ in range(n)] for _ in range(k)])
+        elif kind == 1:
+            G = [[F(rng.randint(-4, 4), 4) for _ in range(n)] for _ in range(k)]
+        else:
+            G = zeros(k, n)
+        T = rng.randint(1, 6)
+        x0 = [[F(rng.randint(-4, 4), 2)] for _ in range(n)]
+        cG, xsG = rule_run(pb, G, T, x0)
+        cF, xsF = rule_run(pb, Fq, T, x0)
+        S1 = madd(pb.Q, scal(b, mm(tr(pb.B), mm(Pq, pb.B))))
+        D = msub(Fq, G)
+        gap = sum((b ** t * mm(tr(mm(D, xsG[t])), mm(S1, mm(D, xsG[t])))[0][0] for t in range(T)), F(0))
+        qP = lambda x: mm(tr(x), mm(Pq, x))[0][0]
+        tG, tF = b ** T * qP(xsG[T]), b ** T * qP(xsF[T])
+        sc = max(F(1), abs(cG), abs(cF), abs(tG), abs(tF), abs(gap))
+        tol = F(ENV_FIX) * sc * T
+        ctx.count("inf:identity-b")
+        # the same quantities from the model-side evaluator (ruleCostM / ruleGapM / ruleEndM, tied to the theorems'
+        # clCost / ruleGap by `rule_evaluator_is_clCost`): must agree with this oracle exactly (2^-96 print floor)
+        cases.append(Case("C07 rat rulecost %s P=%s F=%s G=%s T=%d x0=%s" % (pb.wire(), ratm(Pq), ratm(Fq), ratm(G), T, ratm(x0)),
+                          "costG=%s costF=%s gap=%s tailG=%s tailF=%s v0=%s" % tuple(rat(v) for v in (cG, cF, gap, tG, tF, qP(x0))),
+                          cmp=cmp_fields(1e-20, scalar_keys=("costG", "costF", "gap", "tailG", "tailF", "v0")), tag="rulecost"))
+        bad = None
+        if abs(cG - (qP(x0) - tG + gap)) > tol:
+            bad = "cost(G) != x0'Px0 - beta^T x_T'Px_T + sum of completed squares (off by %.3e)" % float(cG - (qP(x0) - tG + gap))
+        elif abs((cG - cF) - (gap - tG + tF)) > tol:
+            bad = "cost(G) - cost(F) != gap - tail(G) + tail(F) (off by %.3e)" % float((cG - cF) - (gap - tG + tF))
+        elif gap < -tol:
+            bad = "sum of completed squares negative (%.3e): S1 not PSD" % float(gap)
+        if bad:
+            ctx.spec_fail("rule_cost_identity", "%s: %s" % (method, bad),
+                          {"problem": pb.wire(), "method": method, "F": ratm(Fq), "P": ratm(Pq), "G": ratm(G), "T": T,
+                           "x0": ratm(x0)})
+
+
 def qp_value_matrix(pb, Rf, T):
     """P_0 of the T-period deterministic programme by the definition: for x0 in a basis, minimise the total
     discounted cost over the stacked controls (exact normal equations).  Returns None if the Hessian is singular."""
@@ -581,6 +636,7 @@ def run(ctx):
             if why:
                 ctx.spec_fail("stationary_cost", "%s: x'Px+d is not the cost generated by u=-Fx: %s" % (method, why),
                               {"problem": pb.wire(), "method": method, "got": upd_str(Fm, P, d)})
+            check_identity_b(ctx, cases, pb, Pq, Fq, method)
             # no perturbed linear rule is cheaper
             for _p in range(ctx.n(2, 4)):
                 D = [[F(ctx.rng.randint(-2, 2), 8) for _ in range(n)] for _ in range(k)]
